@@ -9,7 +9,14 @@ PIL image -- is rendered through str() / format() (with or without a per-call me
 as one frame of an ImageIterator; the output is decoded into the method whose format was
 produced (0 LINES, 1 WHOLE, 2 ANIM = ONE transmission whose payload is the whole animated
 file) and whether the "data size above the maximum for native animation" warning was
-issued.  The animated files are written to a temporary directory removed at exit."""
+issued.  The animated files are written to a temporary directory removed at exit.
+
+Set operations carry the Python VALUE to hand to the setter as a structured description
+("val": {"k": "none" | "str" | "int" | "bool" | "float" | "bytes" | "tuple" | "list" | "sized" |
+"obj", ...}, see build_val) -- any value of the universe of model/SettingsVal.v, valid or not;
+operations without "val" use the older integer coding (decode).  The outcome of an operation
+is reported by KIND: 0 accepted, 1 TypeError, 2 ValueError, 3 AttributeError, 4 any other
+exception."""
 import implenv
 from implenv import tests
 import atexit
@@ -110,6 +117,71 @@ def do_render(inst, root, o, data):
     return [used_method(out, root, data), int(bool(warned))]
 
 
+class Falsy:
+    """An object of a user class whose truth value is False."""
+
+    def __bool__(self):
+        return False
+
+    def __repr__(self):
+        return "<falsy object>"
+
+
+class Truthy:
+    def __repr__(self):
+        return "<truthy object>"
+
+
+def build_val(d):
+    """The Python value described by [d] (the universe of model/SettingsVal.v)."""
+    k = d["k"]
+    if k == "none":
+        return None
+    if k == "str":
+        return d["s"]
+    if k == "int":
+        return int(d["z"])
+    if k == "bool":
+        return bool(d["b"])
+    if k == "float":
+        return float(d["r"])
+    if k == "bytes":
+        return d["s"].encode("latin-1")
+    if k == "tuple":
+        return tuple(build_val(x) for x in d["l"])
+    if k == "list":
+        return [build_val(x) for x in d["l"]]
+    if k == "sized":
+        n = d["n"]
+        return {"dict": lambda: {i: i for i in range(n)}, "set": lambda: set(range(n)),
+                "frozenset": lambda: frozenset(range(n)), "range": lambda: range(n),
+                "bytearray": lambda: bytearray(n)}[d["t"]]()
+    if k == "obj":
+        v = {"custom": Truthy() if d["t"] else Falsy(), "complex": 1j if d["t"] else 0j,
+             "notimpl": NotImplemented, "ellipsis": Ellipsis, "type": int}[d["w"]]
+        assert bool(v) == bool(d["t"])
+        return v
+    raise ValueError(d)
+
+
+def lower_probe():
+    """Code points outside A-Z whose str.lower() differs from them although it consists only of
+    letters of the render-method names (model/SettingsVal.v [lower_cp] leaves every code point
+    outside A-Z alone; that is harmless for membership in the names unless this list is
+    non-empty)."""
+    letters = set("lineswhoam")
+    bad = []
+    for c in range(0x110000):
+        if 65 <= c <= 90:
+            if chr(c).lower() != chr(c + 32):
+                bad.append(c)
+            continue
+        low = chr(c).lower()
+        if low != chr(c) and set(low) <= letters:
+            bad.append(c)
+    return bad
+
+
 def reset_root(Root):
     Root._render_method = Root._default_render_method
     for a in ("_forced_support", "_jpeg_quality", "_read_from_file"):
@@ -137,17 +209,30 @@ def decode(s, v, pres):
         return "x" if v == -1 else v
 
 
+def as_int(v):
+    """ints (and bools, which ARE ints: True == 1) as themselves; anything else is not a value
+    the property allows to be read: a sentinel no model value equals"""
+    return int(v) if isinstance(v, int) else -99999
+
+
+def as_bool(v):
+    return int(v) if isinstance(v, bool) else -99999
+
+
 def read(s, obj):
-    if s == "rm":
-        return METHODS.index(obj._render_method.lower())
-    if s == "fs":
-        return int(obj.forced_support)
-    if s == "jq":
-        return obj.jpeg_quality
-    if s == "rff":
-        return int(obj.read_from_file)
-    if s == "nam":
-        return obj.native_anim_max_bytes
+    try:
+        if s == "rm":
+            return METHODS.index(obj._render_method.lower())
+        if s == "fs":
+            return as_bool(obj.forced_support)
+        if s == "jq":
+            return as_int(obj.jpeg_quality)
+        if s == "rff":
+            return as_bool(obj.read_from_file)
+        if s == "nam":
+            return as_int(obj.native_anim_max_bytes)
+    except Exception:
+        return -99998  # the stored value cannot even be read the way a render reads it
 
 
 def framing(out, root):
@@ -156,7 +241,8 @@ def framing(out, root):
 
 
 def apply(s, op, target, val):
-    """Returns 0 (accepted) / 1 (rejected with TypeError/ValueError/AttributeError)."""
+    """Returns 0 (accepted) / 1 TypeError / 2 ValueError / 3 AttributeError / 4 any other
+    exception."""
     try:
         if s == "rm":
             if op in ("cs", "is"):
@@ -172,14 +258,20 @@ def apply(s, op, target, val):
                 setattr(target, name, val)
             else:
                 delattr(target, name)
-    except (TypeError, ValueError, AttributeError):
+    except TypeError:
         return 1
+    except ValueError:
+        return 2
+    except AttributeError:
+        return 3
+    except Exception:
+        return 4
     return 0
 
 
 def run_case(case):
     if case.get("probe"):
-        return {"src": src_info()}
+        return {"src": src_info(), "lower_bad": lower_probe()}
     root = case["root"]
     Root = {"kitty": KittyImage, "iterm2": ITerm2Image}[root]
     reset_root(Root)
@@ -230,7 +322,12 @@ def run_case(case):
                     cur[s2] = snap
                 continue
             target = classes[o["t"]] if o["op"] in ("cs", "cu") else insts[o["t"]]
-            val = decode(s, o["v"], o.get("pres", 0)) if o["op"] in ("cs", "is") else o.get("pres", 0) % 2
+            if o["op"] not in ("cs", "is"):
+                val = o.get("pres", 0) % 2
+            elif "val" in o:
+                val = build_val(o["val"])
+            else:
+                val = decode(s, o["v"], o.get("pres", 0))
             code = apply(s, o["op"], target, val)
             for s2 in settings:
                 snap = snapshot(s2)
@@ -244,35 +341,42 @@ def run_case(case):
                 want = cur["rm"][len(classes) + j]
                 with warnings.catch_warnings():
                     warnings.simplefilter("ignore")
-                    got = framing(str(inst), root)
+                    try:
+                        got = framing(str(inst), root)
+                    except Exception:
+                        got = -99
                 if (got == 0) != (want == 0):
                     framing_bad.append([k, j, want, got])
         final = {}
-        # classes' effective method as seen by a fresh instance; per-call override wins
-        fresh, override = [], []
-        for ci, C in enumerate(classes):
-            inst = C(IMG, width=2, height=2)
-            got = framing(str(inst), root)
-            fresh.append(int((got == 0) == (cur["rm"][ci] == 0)))
-            for m, letter in zip(range(len(Root._render_methods)), "LWA"):
-                got = framing(format(inst, "+" + letter), root)
-                override.append(int((got == 0) == (m == 0)))
-            inst.set_render_method("whole")
-            override.append(int(framing(format(inst, "+L"), root) == 0))
-            override.append(int(framing(inst._renderer(inst._render_image, None, method="LINES"), root) == 0))
-        final["fresh_ok"] = fresh
-        final["override_ok"] = override
-        # forced support decides instantiation when the style is unsupported
-        Root._supported = False
-        inst_ok = []
-        for ci, C in enumerate(classes):
-            try:
-                C(IMG)
-                ok = 1
-            except Exception as e:
-                ok = 0 if type(e).__name__ == "StyleError" else -1
-            inst_ok.append(int(ok == cur["fs"][ci]))
-        final["instantiation_ok"] = inst_ok
+        try:
+            # classes' effective method as seen by a fresh instance; per-call override wins
+            fresh, override = [], []
+            for ci, C in enumerate(classes):
+                inst = C(IMG, width=2, height=2)
+                got = framing(str(inst), root)
+                fresh.append(int((got == 0) == (cur["rm"][ci] == 0)))
+                for m, letter in zip(range(len(Root._render_methods)), "LWA"):
+                    got = framing(format(inst, "+" + letter), root)
+                    override.append(int((got == 0) == (m == 0)))
+                inst.set_render_method("whole")
+                override.append(int(framing(format(inst, "+L"), root) == 0))
+                override.append(int(framing(inst._renderer(inst._render_image, None, method="LINES"), root) == 0))
+            final["fresh_ok"] = fresh
+            final["override_ok"] = override
+            # forced support decides instantiation when the style is unsupported
+            Root._supported = False
+            inst_ok = []
+            for ci, C in enumerate(classes):
+                try:
+                    C(IMG)
+                    ok = 1
+                except Exception as e:
+                    ok = 0 if type(e).__name__ == "StyleError" else -1
+                inst_ok.append(int(ok == cur["fs"][ci]))
+            final["instantiation_ok"] = inst_ok
+        except Exception as e:  # a stored value that cannot be rendered with / instantiated under
+            final = {"fresh_ok": [0], "override_ok": [0], "instantiation_ok": [0],
+                     "error": type(e).__name__}
         return {"obs": obs, "interference": interference, "framing_bad": framing_bad, "final": final,
                 "renders": renders, "srcs": [[int(i.is_animated), len(d)] for i, d in zip(insts, datas)]}
     finally:
